@@ -314,26 +314,27 @@ def run_mwis(c):
         coq_of = lambda o: f"(CIs {cedges} {cnat(len(T))} {coq_obs(o, T)})"
     elif which == 'mis':
         kw = {}
-        s = Fraction(2)
+        s = None
         if c["strength"] is not None:
             s = F(c["strength"])
             kw["strength"] = float(s)
         bqm = DG.maximum_independent_set(edges, None if nodes is None else [v for v, _ in nodes], **kw)
-        cn = clist([cpair(cnat(T.idx(v)), cq(1)) for v, _ in (nodes or [])])
-        coq_of = lambda o: f"(CMwis (Some {cq(s)}) {cq(1)} {cedges} {cn} {cnat(len(T))} {coq_obs(o, T)})"
+        cn = clist([cnat(T.idx(v)) for v, _ in (nodes or [])])
+        coq_of = lambda o: f"(CMis {copt(cq(s)) if s is not None else 'None'} {cedges} {cn} {cnat(len(T))} {coq_obs(o, T)})"
     else:
         kw = {}
         s = None
         if c["strength"] is not None:
             s = F(c["strength"])
             kw["strength"] = float(s)
-        m = Fraction(2)
+        m = None
         if c["mult"] is not None:
             m = F(c["mult"])
             kw["strength_multiplier"] = float(m)
         bqm = DG.maximum_weight_independent_set(edges, None if nodes is None else [(v, float(w)) for v, w in nodes], **kw)
         cn = clist([cpair(cnat(T.idx(v)), cq(w)) for v, w in (nodes or [])])
-        coq_of = lambda o: f"(CMwis {copt(cq(s)) if s is not None else 'None'} {cq(m)} {cedges} {cn} {cnat(len(T))} {coq_obs(o, T)})"
+        opt = lambda x: copt(cq(x)) if x is not None else 'None'
+        coq_of = lambda o: f"(CMwis {opt(s)} {opt(m)} {cedges} {cn} {cnat(len(T))} {coq_obs(o, T)})"
     if bqm.vartype is not dimod.BINARY:
         py_fail = f"vartype {bqm.vartype}"
     want = {v for e in edges for v in e} | {v for v, _ in (nodes or [])}
